@@ -419,6 +419,7 @@ func (x *fx) loopHead(li *loopInfo, b *ssa.BasicBlock, st *State, reach Term, pr
 	sp := x.specOf(eff, "loop "+fmt.Sprint(li.ordinal)+" of "+x.fn.Name())
 	if eff.All {
 		sp.unknown = true
+		e.note(fmt.Sprintf("loop %d of %s has an effect with unknown frame: %s", li.ordinal, x.fn.Name(), eff.Why))
 	}
 	head := e.havoc(st, sp)
 	for _, lb := range li.blocks {
